@@ -6,7 +6,7 @@
 namespace scen_pool {
 
 enum { K_COAWAIT, K_COAWAIT_AWT_READY, K_COAWAIT_AWT_PENDING, K_RUN_FN, K_RUN_DETACHED, K_RUN_ASYNC, K_RESUME_SP, K_COUNT };
-struct Job { uint8_t kind, yields, where; uint8_t again = 0; uint8_t big = 0; uint8_t conc = 0; };   // conc (pool(pending awaitable)): the awaitable is resolved by a helper thread, possibly while the coroutine is still suspending on it   // big (run / run_detached): the closure is larger than the pool's small-object space (heap instance instead of in-place)   // again (co_await pool only): once on a worker the coroutine re-submits itself with co_await thread_pool::current()     // where: 0 submitted by the owner thread, 1 by a second submitter thread
+struct Job { uint8_t kind, yields, where; uint8_t again = 0; uint8_t big = 0; uint8_t conc = 0; uint8_t inner = 0; };   // inner (run / run_detached): the job creates a private pool of its own, uses it and destroys it - on the worker of THIS pool   // conc (pool(pending awaitable)): the awaitable is resolved by a helper thread, possibly while the coroutine is still suspending on it   // big (run / run_detached): the closure is larger than the pool's small-object space (heap instance instead of in-place)   // again (co_await pool only): once on a worker the coroutine re-submits itself with co_await thread_pool::current()     // where: 0 submitted by the owner thread, 1 by a second submitter thread
 struct Prog { uint8_t workers; std::vector<Job> jobs; uint8_t stop_who; uint8_t stop_pos; uint8_t stop_yields; uint8_t wait_first = 0; int rdv_a = -1, rdv_b = -1; };
 // wait_first: the owner waits for the result of every submission before it stops / destroys the pool (then nothing may be cancelled)
 // rdv_a/rdv_b: job a does not finish until job b has started (or the pool is being stopped): with >=2 workers b must get one of the others
@@ -30,6 +30,7 @@ inline Prog decode(hz::Reader &r, bool allow_self_stop) {
     for (unsigned i = 0; i < n; i++) p.jobs[i].big = (uint8_t)((p.jobs[i].kind == K_RUN_FN || p.jobs[i].kind == K_RUN_DETACHED || p.jobs[i].kind == K_RESUME_SP) && ((amask >> (i + 4)) & 1));     // (resume(suspend_point): the suspend point carries TWO coroutines)
     uint8_t x = r.u8();     // trailing byte (older replay files keep their meaning)
     p.wait_first = (uint8_t)((x & 1) && (p.stop_who == 0 || p.stop_who == 3));
+    for (unsigned i = 0; i < n; i++) p.jobs[i].inner = (uint8_t)((p.jobs[i].kind == K_RUN_FN || p.jobs[i].kind == K_RUN_DETACHED) && ((x >> (5 + i)) & 1));
     if (((x >> 1) % 3) == 1 && p.workers >= 2 && n >= 2)
         for (unsigned i = 0; i < n; i++) {
             uint8_t k = p.jobs[i].kind;
@@ -41,7 +42,7 @@ inline std::string describe(const Prog &p) {
     static const char *kn[] = {"co_await pool", "co_await pool(ready awaitable)", "co_await pool(pending awaitable)", "run(fn)", "run_detached(fn)", "run(async)", "resume(suspend_point)"};
     static const char *sw[] = {"destructor only", "owner stop() before job #", "a pool job calls stop() after job #", "owner stop() after all jobs, then destructor"};
     hz::Desc d; d << "pool(" << (unsigned)p.workers << " workers); jobs:";
-    for (auto &j : p.jobs) d << " [" << (j.where ? "2nd thread, " : "") << "yield*" << (unsigned)j.yields << ", " << kn[j.kind] << (j.again ? ", then co_await thread_pool::current()" : "") << (j.big ? (j.kind == K_RESUME_SP ? ", two coroutines in the suspend point" : ", 128-byte closure") : "") << (j.conc ? ", awaitable resolved by a helper thread" : "") << "]";
+    for (auto &j : p.jobs) d << " [" << (j.where ? "2nd thread, " : "") << "yield*" << (unsigned)j.yields << ", " << kn[j.kind] << (j.again ? ", then co_await thread_pool::current()" : "") << (j.big ? (j.kind == K_RESUME_SP ? ", two coroutines in the suspend point" : ", 128-byte closure") : "") << (j.conc ? ", awaitable resolved by a helper thread" : "") << (j.inner ? ", the job creates, uses and destroys a private pool of its own" : "") << "]";
     if (p.rdv_a >= 0) d << "; job #" << p.rdv_a << " keeps its worker until job #" << p.rdv_b << " has started";
     d << "; stop: " << (p.wait_first ? "the owner waits for every result, then " : "") << sw[p.stop_who];
     if (p.stop_who == 1 || p.stop_who == 2) d << (unsigned)p.stop_pos;
@@ -80,6 +81,14 @@ struct Ctx {
             hz::slot_add(15, 1);
             while (!((hz::slot_get(14) >> (4 * p->rdv_b)) & 15) && !pp->is_stopped()) vrt::yield();
         }
+    }
+    // a job that uses a private pool of its own: created, used and destroyed on the worker of the outer pool, which must stay a worker
+    void inner_episode(int i) {
+        if (!p->jobs[(size_t)i].inner) return;
+        cocls::thread_pool inner(1);
+        int r = inner.run([] { return 3; }).wait();
+        if (r != 3) hz::fail("a function run on a private inner pool returned %d instead of 3", r);
+        hz::slot_add(16, 1);
     }
     bool started(size_t i) const { return ((hz::slot_get(14) >> (4 * i)) & 15) != 0; }
     // a coroutine that was just cancelled or handed over typically looks at the pool again (is it stopped? can I
@@ -152,14 +161,14 @@ inline void submit(Ctx &c, int i) {
         case K_RUN_FN: {
             Ctx *pc = &c;
             if (c.p->jobs[u].big) { std::array<unsigned char, 120> pad; pad.fill((unsigned char)(i + 1));
-                c.int_futs[u].reset(new cocls::future<int>(pool.run([pc, i, pad]() -> int { for (unsigned char x : pad) if (x != (unsigned char)(i + 1)) hz::fail("captured data of a large closure was corrupted"); pc->mark_ran(i); return 7; }))); }
-            else c.int_futs[u].reset(new cocls::future<int>(pool.run([pc, i]() -> int { pc->mark_ran(i); return 7; })));
+                c.int_futs[u].reset(new cocls::future<int>(pool.run([pc, i, pad]() -> int { for (unsigned char x : pad) if (x != (unsigned char)(i + 1)) hz::fail("captured data of a large closure was corrupted"); pc->inner_episode(i); pc->mark_ran(i); return 7; }))); }
+            else c.int_futs[u].reset(new cocls::future<int>(pool.run([pc, i]() -> int { pc->inner_episode(i); pc->mark_ran(i); return 7; })));
         } break;
         case K_RUN_DETACHED: {
             Ctx *pc = &c;
             if (c.p->jobs[u].big) { std::array<unsigned char, 120> pad; pad.fill((unsigned char)(i + 1));
-                pool.run_detached([pc, i, pad, g = Guard(&r)]() { for (unsigned char x : pad) if (x != (unsigned char)(i + 1)) hz::fail("captured data of a large closure was corrupted"); pc->j[(size_t)i].guard_called++; pc->mark_ran(i); }); }
-            else pool.run_detached([pc, i, g = Guard(&r)]() { pc->j[(size_t)i].guard_called++; pc->mark_ran(i); });
+                pool.run_detached([pc, i, pad, g = Guard(&r)]() { for (unsigned char x : pad) if (x != (unsigned char)(i + 1)) hz::fail("captured data of a large closure was corrupted"); pc->j[(size_t)i].guard_called++; pc->inner_episode(i); pc->mark_ran(i); }); }
+            else pool.run_detached([pc, i, g = Guard(&r)]() { pc->j[(size_t)i].guard_called++; pc->inner_episode(i); pc->mark_ran(i); });
         } break;
         case K_RUN_ASYNC:
             c.int_futs[u].reset(new cocls::future<int>(pool.run(job_async(c, i))));
@@ -286,10 +295,10 @@ inline void run(hz::Reader &rd, bool allow_self_stop) {
     const vrt::Stats &st = vrt::stats();
     hz::set_class(p.stop_who);
     hz::set_nontrivial(overlap || st.preempt_in_lib > 0);
-    hz::count(0, p.wait_first ? 1 : 0); hz::count(1, (uint64_t)hz::slot_get(15));
+    hz::count(0, p.wait_first ? 1 : 0); hz::count(1, (uint64_t)hz::slot_get(15)); hz::count(2, (uint64_t)hz::slot_get(16));
 }
 
 static const char *const class_names[] = {"stop:destructor", "stop:owner-mid-way", "stop:from-a-pool-job", "stop:twice"};
-static const char *const counter_names[] = {"cases_where_the_owner_waits_for_every_result", "rendezvous_jobs_that_ran"};
+static const char *const counter_names[] = {"cases_where_the_owner_waits_for_every_result", "rendezvous_jobs_that_ran", "jobs_that_used_a_private_inner_pool"};
 
 } // namespace scen_pool
